@@ -139,7 +139,7 @@ def oIo (tag : String) : IoEv → String
   | .recv n => s!"{tag}r{n}"
 
 def oEv : Ev → String
-  | .dial i => s!"D{i}" | .adopt i => s!"A{i}" | .close i => s!"C{i}"
+  | .dial i _ => s!"D{i}" | .adopt i _ => s!"A{i}" | .close i => s!"C{i}"
   | .plain i e => oIo s!"P{i}" e
   | .io i e => oIo s!"I{i}" e
   | .wrap i p ok => s!"W{i}:{oPolicy p}:{b2s ok}"
